@@ -132,6 +132,33 @@ func genC16(t *rapid.T) CaseC16 {
 	if len(s) > 0 && rapid.IntRange(0, 2).Draw(t, "cut") == 0 {
 		s = s[:rapid.IntRange(0, len(s)).Draw(t, "cut-at")]
 	}
+	grid := rapid.IntRange(0, 7).Draw(t, "packet-grid") == 0
+	if grid {
+		// a real packet grid: 5..9 whole packets at a 188-byte stride, the first 1..3 of them with a header that is
+		// not plausible (reserved AFC or reserved PID), optionally behind a few garbage bytes
+		s = s[:0]
+		for g := rapid.IntRange(0, 5).Draw(t, "grid-lead"); g > 0; g-- {
+			s = append(s, genC16Byte(t))
+		}
+		np := rapid.IntRange(5, 9).Draw(t, "grid-packets")
+		bad := rapid.IntRange(1, 3).Draw(t, "grid-bad")
+		for k := 0; k < np; k++ {
+			pkt := make([]byte, 188)
+			for i := range pkt {
+				pkt[i] = byte(0x60 + (i+k)%0x20)
+			}
+			pid := rapid.SampledFrom([]int{0x100, 0x101, 0x1FFF, 0x20}).Draw(t, "grid-pid")
+			pkt[0], pkt[1], pkt[2], pkt[3] = 0x47, byte(pid>>8), byte(pid), 0x10|byte(k&15)
+			if k < bad {
+				if rapid.Bool().Draw(t, "grid-bad-afc") {
+					pkt[3] &^= 0x30
+				} else {
+					pkt[1], pkt[2] = 0, byte(rapid.IntRange(4, 15).Draw(t, "grid-bad-pid"))
+				}
+			}
+			s = append(s, pkt...)
+		}
+	}
 	c := CaseC16{Stream: s}
 	if c.Stream == nil {
 		c.Stream = ref.Hex{}
@@ -144,6 +171,9 @@ func genC16(t *rapid.T) CaseC16 {
 		c.Chunks = rapid.SliceOfN(rapid.IntRange(1, 9), 1, 5).Draw(t, "chunks")
 	}
 	c.EOFWithData = rapid.Bool().Draw(t, "eof-with-data")
+	if grid && rapid.Bool().Draw(t, "grid-bulk") {
+		c.BufSize, c.Chunks = 4096, nil
+	}
 	c.Minimal = rapid.IntRange(0, 2).Draw(t, "minimal-scanner") == 0
 	switch lk := rapid.IntRange(0, 399).Draw(t, "long-kind"); {
 	case lk < 60:
@@ -250,7 +280,7 @@ func checkC16(c CaseC16, x *hx.Ctx) *hx.Failure {
 var propC16 = hx.Register(hx.Prop[CaseC16]{ID: "C16", Gen: genC16, Check: checkC16})
 
 func c16Rule() {
-	hx.Rec("C16").SetRule("cases: byte streams of 0..~230 bytes built as garbage over a skewed alphabet (one third 0x47, AFC-bearing and PID-range bytes) with constructed false sync bytes (0x47 + AFC 00 header, 0x47 + PID 4..15 header) ++ optional true header ++ tail, optionally cut anywhere (headers cut by EOF); read through bufio.NewReaderSize(16|17|64|4096) over a source that fragments (1 byte at a time / drawn chunk sizes / unfragmented) and may return data together with EOF; one case in three hands Sync a PeekScanner that has only ReadByte/UnreadByte/Peek. Oracle: reference scan for the least position satisfying the statement's predicate; offset, error and the bytes remaining in the reader are compared. Enumerated: every placement of a true header after k in 0..6 false sync bytes of both kinds with 0..3 filler bytes. Non-trivial: >= 1 false sync byte before the answer, or a header cut by end of stream.")
+	hx.Rec("C16").SetRule("cases: byte streams of 0..~230 bytes built as garbage over a skewed alphabet (one third 0x47, AFC-bearing and PID-range bytes) with constructed false sync bytes (0x47 + AFC 00 header, 0x47 + PID 4..15 header) ++ optional true header ++ tail, optionally cut anywhere (headers cut by EOF); one case in eight is a grid of 5..9 whole packets at a 188-byte stride whose first 1..3 headers are not plausible; read through bufio.NewReaderSize(16|17|64|4096) over a source that fragments (1 byte at a time / drawn chunk sizes / unfragmented) and may return data together with EOF; one case in three hands Sync a PeekScanner that has only ReadByte/UnreadByte/Peek. Oracle: reference scan for the least position satisfying the statement's predicate; offset, error and the bytes remaining in the reader are compared. Enumerated: every placement of a true header after k in 0..6 false sync bytes of both kinds with 0..3 filler bytes. Non-trivial: >= 1 false sync byte before the answer, or a header cut by end of stream.")
 }
 
 func TestC16(t *testing.T) {
